@@ -244,7 +244,11 @@ pub fn run_batch(
                         let mut rng = Rng::for_run(seed, prop, idx);
                         let plan = gen(prop, tier, &mut rng, seed, idx);
                         let mut ctx = Ctx::new(false);
-                        exec(&plan, &mut ctx);
+                        if let Err(p) = guarded(|| exec(&plan, &mut ctx)) {
+                            // a panic outside the executors' own guards: report it against the property
+                            // being exercised instead of killing the batch
+                            ctx.violate(prop, "escaped_panic", &plan.world, format!("panic {:?} at {}", p.msg, p.short_loc()));
+                        }
                         agg.runs += 1;
                         for (k, v) in &ctx.counters {
                             *agg.counters.entry(k).or_insert(0) += v;
@@ -338,7 +342,9 @@ pub fn run_batch(
 
 pub fn reproduces(plan: &Plan, sig: &str, exec: ExecFn) -> Option<String> {
     let mut ctx = Ctx::new(false);
-    exec(plan, &mut ctx);
+    if let Err(p) = guarded(|| exec(plan, &mut ctx)) {
+        ctx.violate(&plan.prop, "escaped_panic", &plan.world, format!("panic {:?} at {}", p.msg, p.short_loc()));
+    }
     ctx.violations
         .iter()
         .find(|v| v.sig() == sig)
